@@ -1,3 +1,6 @@
+(* STATUS NOTE (third session): remarks of the form "NOT PROVED" in the comments below were written when the first theorems of this
+   file were stated; theorems added further down in this file supersede them.  The current status of the property is the row of
+   DESIGN.md section 14.4; the premises that remain are listed in DESIGN.md section 14.9. *)
 (* C05 — Reported matches denote terms that are really in the e-graph.
    PROVED about the model of the single-pattern matcher (EGraph/Rewrite.v, facts in EGraph/RewriteFacts.v),
    for every e-graph state, every pattern that satisfies the parser's arity invariant (Parse/ArityFacts.v
